@@ -178,7 +178,10 @@ def splitter_values(frame, L, prefix):
     pre, post = FRAMES[frame]
     seen = set()
     for t in tokens.seqs(tokens.SIGMA_F, L, prefix):
-        lib = Splitter(pre + "".join(t) + post).split()
+        try:
+            lib = Splitter(pre + "".join(t) + post).split()
+        except Exception:
+            continue  # a crashing splitter is C01's subject; here the splitter only supplies values
         for b in lib.blocks:
             if isinstance(b, Entry):
                 for f in b.fields:
